@@ -1,6 +1,6 @@
 """Developer driver: verify units by name and print obligations."""
-import sys, time
-sys.path.insert(0, "/verif")
+import os, sys, time
+sys.path.insert(0, os.path.dirname(os.path.dirname(os.path.abspath(__file__))))
 from pyvc.frontend import Repo
 from pyvc.contracts import load_sidecars
 from pyvc.engine import Exec
@@ -9,7 +9,7 @@ import z3
 
 def run(unit_names, verbose=True):
     repo = Repo()
-    reg = load_sidecars("/verif/contracts")
+    reg = load_sidecars(os.path.join(os.path.dirname(os.path.dirname(os.path.abspath(__file__))), "contracts"))
     for name in unit_names:
         ex = Exec(repo, reg, name)
         t0 = time.time()
